@@ -301,7 +301,7 @@ WStep ==
 WCrash == Crash /\ UNCHANGED <<pc, disc>>
 
 \* NOT part of C06 (stronger: durability once the writer has returned); used only to show what the
-\* directory fsync buys (cfg AtomicFile_mc_durable*.cfg)
+\* directory fsync buys (cfg AtomicFile_mc_matrix.cfg)
 DurableWhenDone == (crashed /\ WDone) => (TargetPresent /\ TargetContent = par.newc)
 
 WNext == WStep \/ WCrash
@@ -359,8 +359,9 @@ AnyStep ==
         /\ Unlink(a)
         /\ disc' = (disc /\ OkUnlink(a))
 
-AnyNext == \/ pc[2] < AnyMaxSteps /\ AnyStep /\ pc' = <<"any", pc[2] + 1, 0>>
-           \/ Crash /\ UNCHANGED <<pc, disc>>
+AnySys == pc[2] < AnyMaxSteps /\ AnyStep /\ pc' = <<"any", pc[2] + 1, 0>>
+AnyCrash == Crash /\ UNCHANGED <<pc, disc>>
+AnyNext == AnySys \/ AnyCrash
 AnySpec == AnyInit /\ [][AnyNext]_vars
 
 \* a writer that broke the discipline is not explored further (its states are still checked)
